@@ -140,8 +140,8 @@ func vpC25K1Witness() (tail string, multi string) {
 }
 
 func TestVP_C25_known_1(t *testing.T) {
-	if kit.Replaying() {
-		return
+	if shard, _ := kit.Shard(); kit.Replaying() || shard != 0 {
+		return // deterministic witness: once per check run
 	}
 	tail, multi := vpC25K1Witness()
 	r := vpC25Reference()
@@ -871,8 +871,8 @@ func vpC25K2Witness() (batch uint64, amountUnits *big.Int, pnc string, zeroOutpu
 }
 
 func TestVP_C25_known_2(t *testing.T) {
-	if kit.Replaying() {
-		return
+	if shard, _ := kit.Shard(); kit.Replaying() || shard != 0 {
+		return // deterministic witness: once per check run
 	}
 	// sanity of the fixed builder on a batch inside the domain: it must mint
 	cs := vpC25Fixed(7, 3000, [][2]uint64{{10, 100}})
